@@ -27,7 +27,7 @@ RULE = ('Differential Python <-> JavaScript (node driver requiring <repo>/rbql-j
 ASSUMPTIONS = ['warning order is not compared', 'writer warnings are not compared (the property speaks of reader warnings)', 'lone surrogates are never generated (JSON transport)']
 
 SINGLE = [',', ';', '\t', '|', ' ']
-MULTI = ['::', 'ab']
+MULTI = ['::', 'ab', ', ', ' | ', '  ']
 
 
 def plan(tier):
@@ -66,7 +66,7 @@ def shard_lines(shard, nshards, tier, seed, scratch):
             if d == ' ':
                 alpha, ml = ['"', ' ', 'x'], maxlen + 1
             elif len(d) > 1:
-                alpha, ml = ['"', d, ' ', 'x', d[0]], maxlen - 1
+                alpha, ml = list(dict.fromkeys(['"', d, ' ', 'x', d[0], d[-1]])), maxlen - 1
             else:
                 alpha, ml = ['"', d, ' ', 'x'], maxlen
             lines = [''.join(t) for n in range(0, ml + 1) for t in itertools.product(alpha, repeat=n)]
